@@ -294,6 +294,11 @@ impl<'a> Compiler<'a> {
                 .insert(self.program.bytecode.len() as u32, trace.clone())
                 .unwrap();
             self.program.bytecode.push(instruction as u8);
+            if var.captured {
+                // the slot of the variable: values may lie above it on the stack
+                let index = locals.len() as u32;
+                write_to_vec(index, &mut self.program.bytecode);
+            }
         }
     }
 
